@@ -462,7 +462,7 @@
     /// its range, and every other token must be reported unchanged.
     #[test]
     fn verif_oracle_multi_unit_splits() {
-        if !want("C09") { return; }
+        if !want("C09") && !want("C10") { return; }
         let pos = "名詞,普通名詞,一般,*,*,*";
         let mut lex = String::new();
         for (k, c) in [("あ", 3000), ("い", 3000), ("う", 3000), ("え", 3000), ("お", 3000), ("の", 3000), ("あい", 2000)] { lex.push_str(&format!("{},8,8,{},{},{},{},{},*,A,*,*,*,*\n", k, c, k, pos, k, k)); }
@@ -538,6 +538,43 @@
                     Ok(all)
                 })).unwrap_or_else(|_| Err("panic".to_string()));
                 match api { Ok(a) => if a != got && failures.len() < 20 { failures.push(format!("C09: {:?}: splitting the mode C morphemes on demand in mode {:?} gives {:?}, the direct analysis {:?}", t, mode, a, got)); }, Err(e) => if failures.len() < 20 { failures.push(format!("C09: {:?}: on-demand split in mode {:?}: {}", t, mode, e)); } }
+            }
+        }
+        // C10 / C09: two-level splits (a mode C morpheme into its B units, a B unit into its A units) into result lists WITH A HISTORY -
+        // created from a list that was filled under a narrower field request - against the same splits into lists without history
+        {
+            type Row = (usize, usize, String, u32, u16, String);
+            let describe = |l: &MorphemeList<&JapaneseDictionary>| -> Vec<Row> { l.iter().map(|m| (m.begin(), m.end(), m.surface().to_string(), m.word_id().as_raw(), m.part_of_speech_id(), m.reading_form().to_string())).collect() };
+            let nested = |with_history: bool, text: &str| -> Result<Vec<Vec<Row>>, String> {
+                std::panic::catch_unwind(std::panic::AssertUnwindSafe(|| -> Result<Vec<Vec<Row>>, String> {
+                    let mut tok = StatefulTokenizer::new(&jd, Mode::C);
+                    let mut ms = MorphemeList::empty(&jd);
+                    if with_history {
+                        tok.set_subset(InfoSubset::SURFACE);
+                        tok.reset().push_str("あいうえお"); tok.do_tokenize().map_err(|e| format!("{:?}", e))?; ms.collect_results(&mut tok).map_err(|e| format!("{:?}", e))?;
+                    }
+                    let mut b_units = ms.empty_clone();
+                    let mut a_units = ms.empty_clone();
+                    tok.set_subset(InfoSubset::all());
+                    tok.reset().push_str(text); tok.do_tokenize().map_err(|e| format!("{:?}", e))?; ms.collect_results(&mut tok).map_err(|e| format!("{:?}", e))?;
+                    let mut out = vec![describe(&ms)];
+                    for i in 0..ms.len() {
+                        b_units.clear();
+                        if ms.get(i).split_into(Mode::B, &mut b_units).map_err(|e| format!("{:?}", e))? {
+                            out.push(describe(&b_units));
+                            for j in 0..b_units.len() {
+                                a_units.clear();
+                                if b_units.get(j).split_into(Mode::A, &mut a_units).map_err(|e| format!("{:?}", e))? { out.push(describe(&a_units)); }
+                            }
+                        }
+                    }
+                    Ok(out)
+                })).unwrap_or_else(|_| Err("panic".to_string()))
+            };
+            for text in ["あいうえお", "あいうえおのあいう", "えおあいうえお㍿"] {
+                let (a, b) = (nested(false, text), nested(true, text));
+                if a != b && failures.len() < 20 { failures.push(format!("C10: {:?} split twice (C -> B -> A) into lists with a history (created from a list filled under a narrower field request) gives {:?}, into lists without history {:?}", text, b, a)); }
+                if let Ok(rows) = &a { if text == "あいうえお" && (rows.len() != 4 || rows[2].iter().map(|r| r.2.as_str()).collect::<Vec<_>>() != vec!["あ", "い", "う"]) && failures.len() < 20 { failures.push(format!("C09: nested split of あいうえお gives {:?}", rows)); } }
             }
         }
         println!("verif_oracle_multi_unit_splits: {} texts, {} failures", texts.len(), failures.len());
